@@ -2132,3 +2132,146 @@ Proof.
   - unfold dkeys. apply in_map_iff. exists (i, cs). auto.
   - exists t. auto.
 Qed.
+
+(** ** the final result of [profile] (cleaning included), entry-wise: the
+    form the shape-building stage consumes (it iterates over the entries) *)
+
+Lemma In_dfilter {V : Type} (f : str -> bool) (d : dict V) k v :
+  In (k, v) (dfilter f d) <-> In (k, v) d /\ f k = true.
+Proof. unfold dfilter. rewrite filter_In. reflexivity. Qed.
+
+Lemma In_dmapv {V W : Type} (f : V -> W) (d : dict V) k w :
+  In (k, w) (dmapv f d) <-> exists v, In (k, v) d /\ w = f v.
+Proof.
+  unfold dmapv. rewrite in_map_iff. split.
+  - intros [[k' v] [E H]]. cbn in E. injection E as -> <-. exists v. auto.
+  - intros [v [H ->]]. exists (k, v). auto.
+Qed.
+
+(** an entry of a cleaned type-key dictionary is an entry of the original *)
+Lemma In_remove_keys_pdict ks d p m k cd :
+  In (p, m) (remove_keys_pdict ks d) -> In (k, cd) m ->
+  exists m1, In (p, m1) d /\ In (k, cd) m1 /\ ~ In k ks.
+Proof.
+  rewrite remove_keys_pdict_dmapv. intros Hp Hk. apply In_dmapv in Hp. destruct Hp as [m1 [Hp ->]].
+  apply In_dfilter in Hk. destruct Hk as [Hk Hn]. exists m1. split; [assumption|]. split; [assumption|].
+  unfold not_in in Hn. apply mem_str_false. apply negb_true_iff. assumption.
+Qed.
+
+Lemma In_remove_iteration ks P c e :
+  In (c, e) (remove_iteration ks P) <-> exists e1, In (c, e1) P /\ e = clean_entry ks e1 /\ ~ In c ks.
+Proof.
+  rewrite remove_iteration_eq, In_dfilter. split.
+  - intros [H Hn]. apply In_dmapv in H. destruct H as [e1 [H ->]]. exists e1.
+    split; [assumption|]. split; [reflexivity|]. unfold not_in in Hn. apply mem_str_false, negb_true_iff. assumption.
+  - intros [e1 [H [-> Hn]]]. split.
+    + apply In_dmapv. exists e1. auto.
+    + unfold not_in. apply negb_true_iff, mem_str_false. assumption.
+Qed.
+
+Theorem profile_final_char cfg (I : insts) (G : graph) P C ID :
+  NoDup (dkeys I) ->
+  profile cfg I G = inl (P, C, ID) ->
+  annotate_all (p_tau cfg) (p_inverse cfg) G (adapt I) = inl ID /\
+  NoDup (dkeys P) /\
+  (exists ks, dkeys P = filter (not_in ks) (class_keys (targets_of cfg) I) /\
+              (p_remove_empty cfg = false -> ks = [])) /\
+  dkeys C = class_keys (targets_of cfg) I /\
+  (forall c, In c (class_keys (targets_of cfg) I) -> dget C c = Some (class_count I c)) /\
+  forall c e, In (c, e) P ->
+    dget P c = Some e /\
+    (forall p m k cd card n, In (p, m) (c_direct e) -> In (k, cd) m -> In (card, n) cd ->
+       n = occ Direct (p_tau cfg) I G c p k card /\ 0 < n) /\
+    (p_inverse cfg = true ->
+     forall p m k cd card n, In (p, m) (c_inverse e) -> In (k, cd) m -> In (card, n) cd ->
+       n = occ Inverse (p_tau cfg) I G c p k card /\ 0 < n) /\
+    (p_inverse cfg = false -> c_inverse e = []).
+Proof.
+  intros NDI HP. rewrite profile_result in HP.
+  destruct (annotate_all (p_tau cfg) (p_inverse cfg) G (adapt I)) as [ID'|err] eqn:HA; [|discriminate].
+  destruct (raw_profile cfg I ID') as [P1 C0] eqn:HR.
+  injection HP as HP1 HC0 HID. subst C0 ID'.
+  destruct (profile_counts_char cfg I G ID P1 C NDI HA HR) as [KP1 [KC [NDP1 [CC HB]]]].
+  pose proof (profile_entries_char cfg I G ID P1 C NDI HA HR) as HE.
+  split; [reflexivity|].
+  set (ks := if p_remove_empty cfg then shapes_to_remove (p_inverse cfg) (orig_labels cfg) P1 else []).
+  assert (EP : P = remove_iteration ks P1).
+  { unfold ks. destruct (p_remove_empty cfg); [symmetry; assumption|]. rewrite remove_iteration_nil. symmetry. assumption. }
+  clear HP1.
+  assert (NDP : NoDup (dkeys P)).
+  { rewrite EP, dkeys_remove_iteration. apply NoDup_filter. assumption. }
+  split; [assumption|]. split.
+  { exists ks. split.
+    - rewrite EP, dkeys_remove_iteration, KP1. reflexivity.
+    - intros H. unfold ks. rewrite H. reflexivity. }
+  split; [rewrite KC; assumption|]. split; [intros c Hc; apply CC; rewrite KP1; assumption|].
+  intros c e Hce. split; [apply In_dget_NoDup; assumption|].
+  rewrite EP in Hce. apply In_remove_iteration in Hce. destruct Hce as [e1 [Hce1 [-> _]]].
+  pose proof (In_dget_NoDup P1 c e1 NDP1 Hce1) as He1.
+  destruct (HE c e1 He1) as [_ [ED [_ EI]]].
+  split.
+  { intros p m k cd card n Hp Hk Hc. cbn [clean_entry c_direct] in Hp.
+    destruct (In_remove_keys_pdict _ _ _ _ _ _ Hp Hk) as [m1 [Hp1 [Hk1 _]]].
+    apply (ED p m1 k cd card n); assumption. }
+  split.
+  { intros Hinv p m k cd card n Hp Hk Hc. cbn [clean_entry c_inverse] in Hp.
+    destruct (In_remove_keys_pdict _ _ _ _ _ _ Hp Hk) as [m1 [Hp1 [Hk1 _]]].
+    destruct (EI Hinv) as [EI1 _]. apply (EI1 p m1 k cd card n); assumption. }
+  intros Hinv. destruct (HB c e1 He1) as [_ [_ RI]]. rewrite Hinv in RI.
+  cbn [clean_entry c_inverse]. rewrite RI. reflexivity.
+Qed.
+
+(** completeness: every positive count is stored as an entry *)
+Lemma plook_pos_In d p k card :
+  0 < plook d p k card ->
+  exists m cd, In (p, m) d /\ In (k, cd) m /\ In (card, plook d p k card) cd.
+Proof.
+  unfold plook. destruct (dget d p) as [m|] eqn:E1; [|lia].
+  destruct (dget m k) as [cd|] eqn:E2; [|lia].
+  intros H. exists m, cd. split; [apply dget_In; assumption|]. split; [apply dget_In; assumption|].
+  apply cget_pos_In. assumption.
+Qed.
+
+Theorem profile_final_complete cfg (I : insts) (G : graph) P C ID :
+  NoDup (dkeys I) ->
+  profile cfg I G = inl (P, C, ID) ->
+  forall c e, In (c, e) P ->
+  forall p k, (In k (class_keys (targets_of cfg) I) -> In k (dkeys P)) ->
+    (forall card, 0 < occ Direct (p_tau cfg) I G c p k card ->
+       exists m cd, In (p, m) (c_direct e) /\ In (k, cd) m /\
+                    In (card, occ Direct (p_tau cfg) I G c p k card) cd) /\
+    (p_inverse cfg = true ->
+     forall card, 0 < occ Inverse (p_tau cfg) I G c p k card ->
+       exists m cd, In (p, m) (c_inverse e) /\ In (k, cd) m /\
+                    In (card, occ Inverse (p_tau cfg) I G c p k card) cd).
+Proof.
+  intros NDI HP c e Hce p k Hk. rewrite profile_result in HP.
+  destruct (annotate_all (p_tau cfg) (p_inverse cfg) G (adapt I)) as [ID'|err] eqn:HA; [|discriminate].
+  destruct (raw_profile cfg I ID') as [P1 C0] eqn:HR.
+  injection HP as HP1 HC0 HID. subst C0 ID'.
+  destruct (profile_counts_char cfg I G ID P1 C NDI HA HR) as [KP1 [_ [NDP1 [_ HB]]]].
+  set (ks := if p_remove_empty cfg then shapes_to_remove (p_inverse cfg) (orig_labels cfg) P1 else []).
+  assert (EP : P = remove_iteration ks P1).
+  { unfold ks. destruct (p_remove_empty cfg); [symmetry; assumption|]. rewrite remove_iteration_nil. symmetry. assumption. }
+  clear HP1.
+  assert (Hks : forall x, In x ks -> In x (dkeys P1)).
+  { intros x Hx. unfold ks in Hx. destruct (p_remove_empty cfg); [|destruct Hx].
+    apply In_shapes_to_remove in Hx. destruct Hx as [ex [Hex _]].
+    unfold dkeys. apply in_map_iff. exists (x, ex). auto. }
+  assert (Mk : mem_str k ks = false).
+  { apply mem_str_false. intros Hin. pose proof (Hks k Hin) as H1. rewrite KP1 in H1.
+    apply Hk in H1. rewrite EP, dkeys_remove_iteration in H1. apply filter_In in H1.
+    destruct H1 as [_ H1]. unfold not_in in H1. apply mem_str_In in Hin. rewrite Hin in H1. discriminate. }
+  rewrite EP in Hce. apply In_remove_iteration in Hce. destruct Hce as [e1 [Hce1 [-> _]]].
+  pose proof (In_dget_NoDup P1 c e1 NDP1 Hce1) as He1.
+  destruct (HB c e1 He1) as [LD [_ RI]].
+  split.
+  - intros card Hocc. rewrite <- LD in Hocc |- *.
+    assert (E : plook (c_direct (clean_entry ks e1)) p k card = plook (c_direct e1) p k card).
+    { cbn [clean_entry c_direct]. rewrite plook_remove_keys_pdict, Mk. reflexivity. }
+    rewrite <- E in Hocc |- *. apply plook_pos_In. assumption.
+  - intros Hinv card Hocc. rewrite Hinv in RI. destruct RI as [LI _]. rewrite <- LI in Hocc |- *.
+    assert (E : plook (c_inverse (clean_entry ks e1)) p k card = plook (c_inverse e1) p k card).
+    { cbn [clean_entry c_inverse]. rewrite plook_remove_keys_pdict, Mk. reflexivity. }
+    rewrite <- E in Hocc |- *. apply plook_pos_In. assumption.
+Qed.
